@@ -150,7 +150,15 @@ def _build(config, profile, tool):
     t0 = time.time()
     with open(lock_path, "w") as lf:
         fcntl.flock(lf, fcntl.LOCK_EX)
-        p = subprocess.run(cmd, cwd=HARNESS, env=env, stdout=subprocess.PIPE, stderr=subprocess.STDOUT, text=True)
+        triple = {"miri": TARGET_TRIPLE, "miri-i686": "i686-unknown-linux-gnu", "miri-s390x": "s390x-unknown-linux-gnu"}.get(tool)
+        sysroot = os.path.join(os.path.expanduser("~/.cache/miri/lib/rustlib"), triple or "none", "lib")
+        if tool.startswith("miri") and not os.path.isdir(sysroot):
+            # the first use of a target builds Miri's sysroot: serialise that per target
+            with open(os.path.join(BUILD, ".miri-sysroot-%s.lock" % tool), "w") as sf:
+                fcntl.flock(sf, fcntl.LOCK_EX)
+                p = subprocess.run(cmd, cwd=HARNESS, env=env, stdout=subprocess.PIPE, stderr=subprocess.STDOUT, text=True)
+        else:
+            p = subprocess.run(cmd, cwd=HARNESS, env=env, stdout=subprocess.PIPE, stderr=subprocess.STDOUT, text=True)
     if p.returncode != 0:
         tail = "\n".join(p.stdout.splitlines()[-60:])
         err = BuildFailed(config, profile, tool, tail)
